@@ -31,7 +31,7 @@ pub async fn quiesce(completed: &Arc<AtomicU64>) {
     loop {
         tokio::task::yield_now().await;
         let act = sim::activity();
-        if act.busy() {
+        if act.busy() || blocking_pool_busy() {
             stable = 0;
             std::thread::yield_now();
             if start.elapsed().as_secs() > 30 {
@@ -54,4 +54,10 @@ pub async fn quiesce(completed: &Arc<AtomicU64>) {
             return;
         }
     }
+}
+
+/// tokio's blocking pool (tokio::fs) has work queued or running.
+pub fn blocking_pool_busy() -> bool {
+    let m = tokio::runtime::Handle::current().metrics();
+    m.blocking_queue_depth() > 0 || m.num_blocking_threads() > m.num_idle_blocking_threads()
 }
